@@ -31,7 +31,7 @@ type BoundedResult struct {
 	Known     []string `json:"known_findings,omitempty"`
 }
 
-func runBounded(repo, prop string) []BoundedResult {
+func runBounded(repo, prop, tier string) []BoundedResult {
 	dir := filepath.Join(verifRoot, "bounded", prop)
 	ents, err := os.ReadDir(dir)
 	if err != nil {
@@ -65,7 +65,7 @@ func runBounded(repo, prop string) []BoundedResult {
 		ctx, cancel := context.WithTimeout(context.Background(), 300*time.Second)
 		cmd := exec.CommandContext(ctx, "go", "test", "-overlay", ovFile, "-v", "-vet=off", "-count=1", "-timeout", "240s", "-run", "^TestGovcBounded_", "./"+m[1])
 		cmd.Dir = repo
-		cmd.Env = goEnv()
+		cmd.Env = append(goEnv(), "GOVC_BOUND="+tier) // tests may enlarge their bound when GOVC_BOUND=thorough
 		o, err := cmd.CombinedOutput()
 		cancel()
 		res.WallS = time.Since(start).Seconds()
